@@ -177,10 +177,18 @@ def run_vector(vec):
     cls = vec["cls"]
     problems = []
     variant = (sum(sum(r) for r in vec["driver"]) + len(vec["driver"])) % 6
-    for solver in (("manual", "lapack") if cls == "stock" else (None,)):
+    stockint = cls == "stockint"
+    if stockint:
+        cls = "stock"
+    runs = [(sv, False) for sv in (("manual", "lapack") if cls == "stock" else (None,))]
+    # the driver handed over as an INTEGER-typed StockArray at construction (unit counts): results must not be truncated
+    stock_is_integral = all(x[1] == 1 for row in vec["res"]["stock"] for x in row)
+    if cls == "inflow" or (cls == "stock" and stock_is_integral):
+        runs += [(sv, True) for sv in (("manual", "lapack") if cls == "stock" else (None,))]
+    for solver, int_driver in runs:
         S = Setup(config)
         e_stock, e_in, e_out = S.table1(vec["res"]["stock"]), S.table1(vec["res"]["inflow"]), S.table1(vec["res"]["outflow"])
-        tagc = f"[{cls}{'/' + solver if solver else ''}] "
+        tagc = f"[{cls}{'/' + solver if solver else ''}{'/int-typed driver' if int_driver else ''}] "
         try:
             if cls == "flow":
                 st = flodym.SimpleFlowDrivenStock(dims=S.dims, time_letter="t", name="s")
@@ -191,11 +199,19 @@ def run_vector(vec):
                 lm, p = S.lifetime_model(variant, via_set_prms=bool(variant % 2))
                 problems += [tagc + x for x in p]
                 if cls == "inflow":
-                    st = flodym.InflowDrivenDSM(dims=S.dims, time_letter="t", lifetime_model=lm, name="s")
-                    st.inflow.values[...] = S.ints1(vec["driver"])
+                    if int_driver:
+                        st = flodym.InflowDrivenDSM(dims=S.dims, time_letter="t", lifetime_model=lm, name="s",
+                                                    inflow=flodym.StockArray(dims=S.dims, values=S.ints1(vec["driver"]).astype(np.int64)))
+                    else:
+                        st = flodym.InflowDrivenDSM(dims=S.dims, time_letter="t", lifetime_model=lm, name="s")
+                        st.inflow.values[...] = S.ints1(vec["driver"])
                 else:
-                    st = flodym.StockDrivenDSM(dims=S.dims, time_letter="t", lifetime_model=lm, solver=solver, name="s")
-                    st.stock.values[...] = e_stock.astype(float)
+                    if int_driver:
+                        st = flodym.StockDrivenDSM(dims=S.dims, time_letter="t", lifetime_model=lm, solver=solver, name="s",
+                                                   stock=flodym.StockArray(dims=S.dims, values=e_stock.astype(float).astype(np.int64)))
+                    else:
+                        st = flodym.StockDrivenDSM(dims=S.dims, time_letter="t", lifetime_model=lm, solver=solver, name="s")
+                        st.stock.values[...] = e_stock.astype(float)
                 driver_snapshot = (st.inflow.values.copy(), st.stock.values.copy())
                 st.compute()
         except Exception as e:
@@ -250,7 +266,7 @@ def run_vector(vec):
         except Exception as e:
             problems.append(tagc + f"{{C03}} check_stock_balance rejects a computed stock: {str(e)[:120]}")
         if not any("{C03}" in p for p in problems):
-            st.stock.values[S.n // 2, ...] += 40.0 * float(max(S.dt))
+            st.stock.values[S.n // 2, ...] += int(40 * float(max(S.dt)) + 1)
             try:
                 st.check_stock_balance()
                 problems.append(tagc + "{C03} check_stock_balance accepts a stock perturbed far beyond the threshold")
